@@ -40,7 +40,7 @@
 
   Go runtime faults / raised issues are explicit: every function that can raise in Go answers `Except Code _`.
   Attribute types are a small alphabet with a decidable instance test (`inst`); nothing in this file depends on which.
-  Not modelled (outside the universe the driver accepts): `final => true`, functions, type parameters, annotations,
+  Not modelled (outside the universe the driver accepts): functions, type parameters, annotations,
   constants given through `constants => {}`, a hash literal with a repeated key.
   Core-only file (linked into the driver).
 -/
@@ -86,7 +86,7 @@ inductive Kind where
 /-- issue codes (printed without the `PCORE_` prefix) and the Go runtime fault -/
 inductive Code where
   | typeMismatch | constantRequiresValue | illegalKindValueCombination | overrideIsMissing | overrideOfFinal
-  | overriddenNotFound | overrideTypeMismatch
+  | overriddenNotFound | overrideTypeMismatch | constantWithFinal
   | equalityAttributeNotFound | equalityOnConstant | equalityRedefined
   | serializationAttributeNotFound | serializationBadKind | serializationRequiredAfterOptional
   | serializationDuplicateAttribute
@@ -102,6 +102,7 @@ def Code.toString : Code → String
   | .overrideOfFinal => "reported OVERRIDE_OF_FINAL"
   | .overriddenNotFound => "reported OVERRIDDEN_NOT_FOUND"
   | .overrideTypeMismatch => "reported OVERRIDE_TYPE_MISMATCH"
+  | .constantWithFinal => "reported CONSTANT_WITH_FINAL"
   | .equalityAttributeNotFound => "reported EQUALITY_ATTRIBUTE_NOT_FOUND"
   | .equalityOnConstant => "reported EQUALITY_ON_CONSTANT"
   | .equalityRedefined => "reported EQUALITY_REDEFINED"
@@ -123,6 +124,7 @@ structure AttrDecl where
   kind : Kind
   dflt : Option Val
   override : Bool := false
+  final : Option Bool := none
   deriving DecidableEq, Repr, Inhabited
 
 /-- an attribute after `attribute.initialize`; `value = none` is Go's `a.value == nil` (not to be confused with undef) -/
@@ -132,6 +134,7 @@ structure Attr where
   kind : Kind
   value : Option Val
   override : Bool := false
+  final : Bool := false
   deriving DecidableEq, Repr, Inhabited
 
 def Attr.hasValue (a : Attr) : Bool := a.value.isSome
@@ -182,12 +185,16 @@ structure Level where
 /-- a resolved type: itself, then its ancestors -/
 abbrev OType := List Level
 
-/-- attribute.go initialize -/
-def mkAttr (d : AttrDecl) : Except Code Attr :=
+/-- `a.final` after initialize: declared, and implied for a constant -/
+def AttrDecl.isFinal (d : AttrDecl) : Bool := d.kind == .constant || d.final == some true
+
+/-- attribute.go initialize, after the constant/final check -/
+def mkAttrCore (d : AttrDecl) : Except Code Attr :=
   match d.dflt with
   | some v =>
     if d.kind == .derived || d.kind == .givenOrDerived then .error .illegalKindValueCombination
-    else if inst d.ty v then .ok { name := d.name, ty := d.ty, kind := d.kind, value := some v, override := d.override }
+    else if inst d.ty v then
+      .ok { name := d.name, ty := d.ty, kind := d.kind, value := some v, override := d.override, final := d.isFinal }
     else .error .typeMismatch
   | none =>
     if d.kind == .constant then .error .constantRequiresValue
@@ -198,7 +205,11 @@ def mkAttr (d : AttrDecl) : Except Code Attr :=
       let value := match ty with
         | .opt _ => some Val.undef
         | _ => none
-      .ok { name := d.name, ty := ty, kind := d.kind, value := value, override := d.override }
+      .ok { name := d.name, ty := ty, kind := d.kind, value := value, override := d.override, final := d.isFinal }
+
+/-- attribute.go initialize: a constant is final — saying `final => false` is an error, raised before the value checks -/
+def mkAttr (d : AttrDecl) : Except Code Attr :=
+  if d.kind == .constant && d.final == some false then .error .constantWithFinal else mkAttrCore d
 
 /-- own attributes first, then the parent's (GetAttribute, Member, members(true).Get) -/
 def findAttr : OType → String → Option Attr
@@ -226,12 +237,12 @@ def equalityDeclared : OType → Bool
   | [] => false
   | l :: p => l.equality.isSome || equalityDeclared p
 
-/-- annotatedmember.go assertOverride / assertCanBeOverridden (a constant is final) -/
+/-- annotatedmember.go assertOverride / assertCanBeOverridden: a final member is overridden only constant by constant -/
 def assertOverride (parent : OType) (a : Attr) : Except Code Unit :=
   match findAttr parent a.name with
   | none => if a.override then .error .overriddenNotFound else .ok ()
   | some pa =>
-    if pa.kind == .constant && a.kind != .constant then .error .overrideOfFinal
+    if pa.final && !(pa.kind == .constant && a.kind == .constant) then .error .overrideOfFinal
     else if !a.override then .error .overrideIsMissing
     else if !asg pa.ty a.ty then .error .overrideTypeMismatch
     else .ok ()
@@ -448,8 +459,9 @@ def makeValueHash : List Attr → List Val → List (String × Val)
 
 def initHash (o : Obj) : List (String × Val) := makeValueHash (attrInfo o.typ).attrs o.values
 
-/-- attribute.Equals: kind, override, name, type (final is determined by the kind here); never the value -/
-def attrEq (a b : Attr) : Bool := a.kind == b.kind && a.override == b.override && a.name == b.name && a.ty == b.ty
+/-- attribute.Equals: kind, override, name, final, type; never the value -/
+def attrEq (a b : Attr) : Bool :=
+  a.kind == b.kind && a.override == b.override && a.name == b.name && a.final == b.final && a.ty == b.ty
 
 /-- objectType.Equals.  `t == o`: the pointer test; names (`id`) first. -/
 def tyEqDeep : OType → OType → Bool
